@@ -39,6 +39,13 @@ deriving Repr, DecidableEq
 
 abbrev M := Except Trap
 
+instance {α : Type} [DecidableEq α] : DecidableEq (M α) := fun a b =>
+  match a, b with
+  | .ok x, .ok y => if h : x = y then isTrue (by rw [h]) else isFalse (fun e => h (Except.ok.inj e))
+  | .error x, .error y => if h : x = y then isTrue (by rw [h]) else isFalse (fun e => h (Except.error.inj e))
+  | .ok _, .error _ => isFalse (fun e => by cases e)
+  | .error _, .ok _ => isFalse (fun e => by cases e)
+
 /-- `fp.start[k]` -/
 def rd (r : Str) (k : Nat) : M Char :=
   if k ≤ r.length then .ok (r.getD k NUL) else .error .oob
